@@ -385,8 +385,13 @@ type world struct {
 	states []string
 }
 
+// fill puts a sentinel entry into every cache class of the universe. The
+// lifetime of those classes is set to a day first (the default is 60 s), so
+// that a stalled process cannot make a sentinel expire between fill and the
+// look-up and be mistaken for a purge.
 func fill() {
 	for _, id := range universe {
+		_ = caches.SetExpiration(id, "24h")
 		caches.Add(id, sentinelKey, "v")
 	}
 }
